@@ -386,6 +386,47 @@ func c10AliasRun(c c10Alias) (sig, what string) {
 	return "", ""
 }
 
+type c10Swap struct {
+	SwapBanks int    `json:"swap_banks"`
+	Addr      uint32 `json:"addr"`
+	Grow      int    `json:"grow"`
+}
+
+func c10SwapRun(addr uint32, grow int) (sig, what string) {
+	defer func() {
+		if x := recover(); x != nil {
+			sig, what = "unexplained:image-replaced", fmt.Sprintf("addr $%06x grow %d: panic %v", addr, grow, x)
+		}
+	}()
+	img := c10Image(2)
+	rom, err := snes.NewROM("t", img)
+	if err != nil {
+		return "bad-case", err.Error()
+	}
+	w := rom.BusWriter(addr)
+	fresh := make([]byte, len(img)+grow)
+	copy(fresh, img)
+	rom.Contents = fresh // same bytes, other storage (and possibly more of it)
+	p := []byte{0xDE, 0xAD, 0xBE, 0xEF}
+	room := 0x8000 - int(addr&0x7FFF)
+	if len(p) > room {
+		p = p[:room]
+	}
+	n, werr := w.Write(p)
+	if n != len(p) || werr != nil {
+		return "unexplained:image-replaced", fmt.Sprintf("Write after the image was replaced returned (%d,%v)", n, werr)
+	}
+	off := int(addr>>16<<15 | addr&0x7FFF)
+	if !bytes.Equal(rom.Contents[off:off+len(p)], p) {
+		return "unexplained:image-replaced", fmt.Sprintf("writer obtained at $%06x, then ROM.Contents replaced by a copy (%d bytes longer): Write reports (%d,nil) but the ROM's image holds % x at that place, not % x", addr, grow, n, rom.Contents[off:off+len(p)], p)
+	}
+	got := make([]byte, len(p))
+	if k, _ := rom.BusReader(addr).Read(got); k > len(got) || !bytes.Equal(got[:k], p[:k]) || k == 0 && len(p) > 1 {
+		return "unexplained:image-replaced", fmt.Sprintf("a reader at $%06x returns % x after % x was written there", addr, got[:k], p)
+	}
+	return "", ""
+}
+
 func c10MultiCases(depth int) []c10Multi {
 	pairs := [][]uint32{{0x00FFF0, 0x00FFF0}, {0x00FFF0, 0x00FFF8}, {0x00FFE0, 0x01FFE8}, {0x018000, 0x008000}}
 	lens := []int{1, 3, 8, 17}
@@ -411,6 +452,14 @@ func c10MultiCases(depth int) []c10Multi {
 }
 
 func replayC10(raw json.RawMessage) (string, error) {
+	var sc c10Swap
+	if json.Unmarshal(raw, &sc) == nil && sc.SwapBanks > 0 {
+		sig, what := c10SwapRun(sc.Addr, sc.Grow)
+		if sig == "" {
+			return "writer and reader use the image the ROM holds at the time of the call", nil
+		}
+		return what, fmt.Errorf("%s", sig)
+	}
 	var ac c10Alias
 	if json.Unmarshal(raw, &ac) == nil && ac.AliasBanks > 0 {
 		sig, what := c10AliasRun(ac)
@@ -583,6 +632,20 @@ func runC10(r *report.Run) {
 	}
 	transitions += na
 	r.Set("aliased_source_writes", na)
+	// ROM.Contents is an exported field: the caller may replace the image (grow it, swap in a copy) between
+	// obtaining a writer/reader and using it; the writer stores into, and a new reader reads from, the image
+	// the ROM holds at that moment
+	var ns int64
+	for _, addr := range []uint32{0x008000, 0x00FFF0, 0x018001} {
+		for _, grow := range []int{0, 0x8000} {
+			ns++
+			if sig, what := c10SwapRun(addr, grow); sig != "" {
+				r.Violation(sig, what, c10Swap{2, addr, grow})
+			}
+		}
+	}
+	transitions += 3 * ns
+	r.Set("image_replaced_between_calls", ns)
 	// the same op sequences with two READERS, interleaved vs alone
 	var nr int64
 	par.For(len(multi), func(_, i int) {
